@@ -325,6 +325,15 @@ Fixpoint collect_next (fuel : nat) (it : iter) : list (key * val) :=
   end.
 
 
+(* a whole backward walk: Prev until it reports exhaustion *)
+Fixpoint collect_prev (fuel : nat) (it : iter) : list (key * val) :=
+  match fuel with
+  | O => []
+  | S f => let '(it', b) := prev it in
+           if b then match current it' with Some e => e :: collect_prev f it' | None => [] end
+           else []
+  end.
+
 (* ------------------------------------------------------------- histories *)
 
 Inductive mop := MPut (k : key) (v : val) (p : Z) | MDel (k : key).
